@@ -15,7 +15,7 @@ MS_ALGS = ["FDD_MS", "EFDD_MS", "SSIcov_MS", "SSIdat_MS", "pLSCF_MS"]
 TRANSF = ["gain", "gain_pow2", "perm", "mix", "time", "time_pow2"]
 REQUIRED_MONITORS = [f"{t}@{a}" for a in SS_ALGS for t in ("gain", "perm", "mix", "time")] + [f"{t}@{a}" for a in MS_ALGS for t in ("gain", "perm", "time")] + ["unit-normalisation"]
 ALL_STATES = ["method_SD=per", "method_SD=cor", "ref_ind subset", "free decay + noise", "white noise", "random response", "default hard criteria", "neutral MPC/MPD"]
-REQUIRED_STATES = ["method_SD=per", "method_SD=cor", "ref_ind subset", "free decay + noise", "white noise", "random response"]
+REQUIRED_STATES = ["method_SD=per", "method_SD=cor", "ref_ind subset", "free decay + noise", "white noise", "random response", "base record of integer type"]
 RULE = ("two (three) executions of the real algorithm through a setup on related inputs: base, transformed (gain 10^U(-6,6) or 2^k, channel permutation "
         "with ref_ind mapped, orthogonal mixing, time unit k in 10^U(-2,2) or 2^k) and a rounding probe (data * (1 + 1e-15 noise)); whole pole tables "
         "compared column by column as multisets of (f, xi, shape up to conjugation), NaN counts equal, extracted Fn/Xi/Phi and the frequency grid; a "
@@ -289,6 +289,12 @@ def run_single_case(ctx, case, rng):
         spec["kw"]["ordmax"] = min(spec["kw"]["ordmax"], spec["kw"]["br"] * nch - 1)
     sel = [float(f) for f in fn]
     t = draw_transform(rng, tr, nch)
+    if tr.startswith("gain") and rng.random() < 0.5:
+        # the base record stored as raw ADC counts (integer type); the scaled copy is a float array of the same samples times the gain
+        counts = float(rng.choice([300, 4000]))
+        dt_ = np.int16 if counts < 1000 else np.int32
+        data = np.clip(np.round(data / np.std(data) * counts), -32000 if dt_ is np.int16 else -2**30, 32000 if dt_ is np.int16 else 2**30).astype(dt_)
+        ctx.state("base record of integer type")
     base = run_single(data, fs, spec, sel, ref)
     probe = run_single(data * (1 + 1e-15 * rng.standard_normal(data.shape)), fs, spec, sel, ref)
     fscale, T, tol = 1.0, (lambda p: p), 1e-6
@@ -350,6 +356,10 @@ def run_multi_case(ctx, case, rng):
     if "br" in spec["kw"]:
         spec["kw"]["ordmax"] = min(spec["kw"]["ordmax"], (spec["kw"]["br"] + 1) * nref - 2)
     sel = [float(f) for f in fn]
+    if tr.startswith("gain") and rng.random() < 0.5:
+        sd = float(np.std(data))
+        datasets = [np.round(d / sd * 4000).astype(np.int32) for d in datasets]  # raw counts
+        ctx.state("base record of integer type")
     base = run_multi(datasets, reflist, fs, spec, sel)
     probe = run_multi([d * (1 + 1e-15 * rng.standard_normal(d.shape)) for d in datasets], reflist, fs, spec, sel)
     fscale, T, tol = 1.0, (lambda p: p), 1e-6
